@@ -73,3 +73,125 @@ Example C01_example :
   | _ => False
   end.
 Proof. vm_compute. split; reflexivity. Qed.
+
+(* ------------------------------------------------------------------------------------------ *)
+(* Layer (iv) and the tie between the two parser models (Proofs/UpdateDocProofs*.v).
+   `update_doc` (Model/UpdateDoc.v) = AnalyzedSource::update on whole documents, `new_doc`
+   (Model/Errors.v) = AnalyzedSource::new; a history is a list of notifications, each a list of
+   changes (`update_hist`).  `parse_only p`: every error attached to any AstInfo of p is a parse
+   error. *)
+From Spl Require Import Model.UpdateDoc Proofs.UpdateDocProofsStrip Proofs.UpdateDocProofsInv
+  Proofs.UpdateDocProofsSim Proofs.UpdateDocProofs.
+
+(* G2: parser::update never hands a stale build or semantic message on, whatever the old tree -
+   reused nodes have passed remove_messages on EVERY AstInfo, re-parsed nodes take their errors from
+   the parser's buffer *)
+Theorem C01_no_stale_messages : forall old toks ws we n p,
+  parse_update old toks ws we n = Done p -> parse_only p.
+Proof. exact parse_update_parse_only. Qed.
+Print Assumptions C01_no_stale_messages.
+
+(* ... in terms of errors(): every diagnostic collected from that tree is a parse error *)
+Theorem C01_no_stale_diagnostics : forall old toks ws we n p,
+  parse_update old toks ws we n = Done p -> forall e, In e (tree_errors p) -> exists m, e_m e = EParse m.
+Proof. exact parse_update_errors. Qed.
+Print Assumptions C01_no_stale_diagnostics.
+
+(* ... and on documents: a notification with at least one change recomputes table and build /
+   semantic diagnostics from a tree that carries parse errors only *)
+Theorem C01_no_stale_document : forall d cs d',
+  cs <> [] -> update_doc d cs = Done d' ->
+  exists pd, psteps (pdoc_of d) cs = Done pd /\ parse_only (p_tree pd) /\ analyse_pdoc pd = Done d'.
+Proof. exact update_doc_no_stale. Qed.
+Print Assumptions C01_no_stale_document.
+
+(* text and tokens of the DOCUMENT along every history of notifications *)
+Theorem C01_document_text_tokens : forall t h d0 d',
+  new_doc t = Done d0 -> valid_hist t (concat h) -> update_hist d0 h = Done d' ->
+  d_text d' = final_text t (concat h) /\ lex (final_text t (concat h)) = Some (d_toks d').
+Proof. exact update_hist_from_new. Qed.
+Print Assumptions C01_document_text_tokens.
+
+(* G1: C01_partial lifted to documents (text, tokens, analysed tree with every diagnostic, table):
+   after any history of notifications h ++ [cs], if the parse-level tree of the last notification
+   (`psteps`, the fold inside AnalyzedSource::update) is the scratch tree of its tokens, the
+   updated document is exactly the freshly analysed final text *)
+Theorem C01_partial_document : forall t h cs d0 d1 pd d',
+  cs <> [] -> new_doc t = Done d0 -> valid_hist t (concat (h ++ [cs])) ->
+  update_hist d0 h = Done d1 ->
+  psteps (pdoc_of d1) cs = Done pd ->
+  parse (p_toks pd) = Done (p_tree pd) ->
+  update_doc d1 cs = Done d' ->
+  new_doc (final_text t (concat (h ++ [cs]))) = Done d'.
+Proof. exact hist_partial_document. Qed.
+Print Assumptions C01_partial_document.
+
+(* DESIGN `rebuild_irrelevant`, in the form that is true: updated and scratch tree both carry parse
+   errors only, so agreeing up to build/semantic messages is agreeing *)
+Theorem C01_rebuild_irrelevant : forall old toks ws we n p q,
+  parse_update old toks ws we n = Done p -> parse toks = Done q ->
+  strip_program p = strip_program q -> p = q.
+Proof. exact rebuild_irrelevant. Qed.
+Print Assumptions C01_rebuild_irrelevant.
+
+(* G3: the incremental machinery without an old tree is the scratch parser - for every token list
+   (and, `inc_none_is_scratch`, every fuel, state and TokenChange) *)
+Theorem C01_inc_none_is_scratch : forall toks, parse_via_inc toks = parse toks.
+Proof. exact parse_via_inc_is_parse. Qed.
+Print Assumptions C01_inc_none_is_scratch.
+
+(* a notification with an EMPTY change list is not covered by G2 and violates the property: the
+   analysed tree is analysed again and every build/semantic diagnostic doubles (candidate defect
+   C01-empty-notification, witness `proc main(){x:=1;}`) *)
+Theorem C01_empty_notification_is_identity : forall d, update_doc d [] = Done d.
+Proof. exact empty_notification_is_identity. Qed.
+Print Assumptions C01_empty_notification_is_identity.
+
+(* regression witness of the defect repaired in /repo (an empty change list used to duplicate every build and semantic
+   diagnostic): `proc main(){x:=1;}` has one diagnostic before and after an empty notification *)
+Example C01_empty_notification_example : nil_check = true.
+Proof. exact nil_check_true. Qed.
+
+(* ---- non-vacuity ---- *)
+(* `proc main(){x:=1;}` -> insert `;` before `}`: the analysed tree carries a semantic message
+   (remove_messages changes it), the tree of the update does not *)
+Example C01_no_stale_example :
+  let a := [112; 114; 111; 99; 32; 109; 97; 105; 110; 40; 41; 123; 120; 58; 61; 49; 59]%N in
+  match new_doc w_nil with
+  | Done d0 =>
+      strip_program (d_ast d0) <> d_ast d0 /\
+      match psteps (pdoc_of d0) [ {| c_a := a; c_d := []; c_b := [125]%N; c_ins := [59]%N |} ] with
+      | Done pd => strip_program (p_tree pd) = p_tree pd /\ parse (p_toks pd) = Done (p_tree pd)
+      | _ => False
+      end
+  | _ => False
+  end.
+Proof. vm_compute. split; [intros H; discriminate H | split; reflexivity]. Qed.
+
+(* two notifications on `proc m(){a:=1;}` (two build/semantic diagnostics): insert `;`, delete it *)
+Example C01_partial_document_example :
+  let t := w_a ++ w_b in
+  let a1 := w_a ++ [109; 40; 41; 123] in
+  let b1 := [97; 58; 61; 49; 59; 125] in
+  let n1 := [ {| c_a := a1; c_d := []; c_b := b1; c_ins := [59] |} ] in
+  let n2 := [ {| c_a := a1; c_d := [59]; c_b := b1; c_ins := [] |} ] in
+  match new_doc t with
+  | Done d0 =>
+      match update_hist d0 [n1] with
+      | Done d1 =>
+          match psteps (pdoc_of d1) n2 with
+          | Done pd =>
+              valid_hist t (concat ([n1] ++ [n2])) /\ parse (p_toks pd) = Done (p_tree pd) /\
+              update_doc d1 n2 = Done d0 /\ strip_program (d_ast d0) <> d_ast d0
+          | _ => False
+          end
+      | _ => False
+      end
+  | _ => False
+  end.
+Proof. vm_compute. repeat split; try reflexivity. intros H; discriminate H. Qed.
+
+Definition ex_toks : list token := Eval vm_compute in match lex w_nil with Some l => l | None => [] end.
+
+Example C01_inc_none_example : exists p, parse ex_toks = Done p /\ parse_via_inc ex_toks = Done p.
+Proof. vm_compute. eexists. split; reflexivity. Qed.
